@@ -793,7 +793,7 @@ def assign_runs_in_the_context_of_the_call(col):
     from glom import Glommer, S
     g = Glommer()
     g.register(_Vault, get=_vault_get)
-    mk = lambda: {'v': _Vault(inner={'x': 1, 'y': 2}, lst=[10, 20, 30]), 'a': {'x': 1, 'y': 2}, 'b': {'x': 3}}
+    mk = lambda: {'v': _Vault(inner={'x': 1, 'y': 2}, lst=[10, 20, 30]), 'a': {'x': 1, 'y': 2}, 'b': {'x': 3}, 'keyname': 'x'}
     cases = [
         # (description, runner, spec, plain Python on a twin, expected error class when plain Python fails)
         ('Glommer, registered type on the parent path (string)', lambda t, sp: g.glom(t, sp), lambda: Assign('v.inner.x', 'NEW'), lambda t: t['v']._cells['inner'].__setitem__('x', 'NEW')),
@@ -801,6 +801,8 @@ def assign_runs_in_the_context_of_the_call(col):
         ('Glommer, registered type behind a star', lambda t, sp: g.glom(t, sp), lambda: Assign(Path(T.__star__(), 'inner', 'y'), 'NEW'), lambda t: t['v']._cells['inner'].__setitem__('y', 'NEW')),
         ('segment taken from the scope (S step before)', G, lambda: (S(which='a'), Assign(T[S['which']]['x'], 'NEW')), lambda t: t['a'].__setitem__('x', 'NEW')),
         ('segment taken from the caller scope', lambda t, sp: G(t, sp, scope={'which': 'b'}), lambda: Assign(T[S['which']]['x'], 'NEW'), lambda t: t['b'].__setitem__('x', 'NEW')),
+        ('the FINAL segment is computed from the target', G, lambda: Assign(T['a'][T['keyname']], 'NEW'), lambda t: t['a'].__setitem__(t['keyname'], 'NEW')),
+        ('the final segment is computed from the scope', G, lambda: (S(which='y'), Assign(T['a'][S['which']], 'NEW')), lambda t: t['a'].__setitem__('y', 'NEW')),
         ('segment taken from the scope, inside a list spec', G, lambda: ('rows', [(S(k=T['k']), Assign(T['d'][S['k']]['x'], 'NEW'))]), None),
     ]
     for desc, runner, mk_spec, py in cases:
@@ -812,7 +814,7 @@ def assign_runs_in_the_context_of_the_call(col):
         else:
             t, w = mk(), mk()
             py(w)
-            read = lambda t: {'v': t['v']._cells, 'a': t['a'], 'b': t['b']}
+            read = lambda t: {'v': t['v']._cells, 'a': t['a'], 'b': t['b'], 'n': len(t)}
         got = call(runner, t, mk_spec())
         col.case(('context-of-the-call', desc), True)
         col.count('assignments_attempted')
